@@ -51,10 +51,18 @@ SlopeOK(q, d, A, B, w) ==
 
 RowOK(r) ==
   LET q == Pr(r.cv) d == r.g IN
-  /\ IsPt(q, d, r.P) /\ IsPt(q, d, r.Q) /\ IsPt(q, d, r.r)
+  /\ IsPt(q, d, r.P) /\ IsPt(q, d, r.Q) /\ (r.op # "line" => IsPt(q, d, r.r))
   /\ CASE r.op = "add"    -> IsE(q, d, r.w) /\ SlopeOK(q, d, r.P, r.Q, r.w) /\ r.r = AddW(q, d, r.P, r.Q, r.w)
        [] r.op = "double" -> IsE(q, d, r.w) /\ SlopeOK(q, d, r.P, r.P, r.w) /\ r.r = AddW(q, d, r.P, r.P, r.w)
        [] r.op = "neg"    -> r.r = IF r.P = INF THEN INF ELSE <<r.P[1], ENeg(q, r.P[2])>>
+       \* the line through P and Q (tangent if P = Q, vertical if Q = -P) evaluated at T, all three finite:
+       \* v = w (xT - xP) - (yT - yP), or xT - xP for the vertical line; r.r = <<v>>
+       [] r.op = "line"   -> /\ IsPt(q, d, r.T) /\ r.P # INF /\ r.Q # INF /\ r.T # INF /\ IsE(q, d, r.w)
+                             /\ SlopeOK(q, d, r.P, r.Q, r.w)
+                             /\ Len(r.r) = 1 /\ IsE(q, d, r.r[1])
+                             /\ r.r[1] = IF r.P[1] = r.Q[1] /\ (r.P[2] # r.Q[2] \/ r.P[2] = EZero(d))
+                                         THEN ESub(q, r.T[1], r.P[1])
+                                         ELSE ESub(q, EMul(q, r.w, ESub(q, r.T[1], r.P[1])), ESub(q, r.T[2], r.P[2]))
        [] OTHER -> FALSE
 
 Init == i = 0
